@@ -63,6 +63,15 @@ pub fn quiet_panics() {
 
 pub struct Args(pub Vec<String>);
 impl Args {
+    /// (mode, remaining args) from the process arguments: `<bin> <mode> [--key value ...]`
+    pub fn from_env() -> (String, Args) {
+        let argv: Vec<String> = std::env::args().collect();
+        if argv.len() < 2 {
+            eprintln!("usage: {} <mode> [--key value ...]", argv[0]);
+            std::process::exit(2);
+        }
+        (argv[1].clone(), Args(argv[2..].to_vec()))
+    }
     pub fn get(&self, key: &str) -> Option<&str> {
         let k = format!("--{key}");
         self.0.iter().position(|a| *a == k).and_then(|i| self.0.get(i + 1)).map(|s| s.as_str())
